@@ -81,6 +81,10 @@ fn addr_bases() -> Vec<Vec<u8>> {
         format!("30023:{PK1}:my-article").into_bytes(),
         format!("0:{PK1}:").into_bytes(),
         format!("65535:{PK1}:a:b:c").into_bytes(),
+        // long identifiers with multi-byte characters at various byte positions, control characters, a quote
+        format!("30023:{PK1}:{}étail-€-{}😀", "a".repeat(47), "b".repeat(70)).into_bytes(),
+        format!("30023:{PK1}:{}ééé\n\t\"q\"", "c".repeat(31)).into_bytes(),
+        format!("30023:{PK1}:{}", "\u{20ac}".repeat(40)).into_bytes(),
     ]
 }
 
@@ -434,6 +438,10 @@ fn run_one(entry: &str, input: &[u8], buflen: usize, probe: &Event) -> Obs {
                 Err(_) => Obs::Err,
                 Ok(a) => {
                     let _ = (a.kind, a.author, a.d.len());
+                    // every formatter / clone of the parsed value is total as well
+                    let _ = format!("{:?}", a);
+                    let _ = format!("{:#?}", a);
+                    let _ = format!("{:?}", a.clone());
                     Obs::OkWellformed
                 }
             },
